@@ -317,9 +317,12 @@ def explore_pairs(farm, rep, jobs, stats, seed):
         for k in ks:
             sched_payloads.append(dict(job["base"], plan=[[0, k], [1, INF], [0, INF]]))
             sched_idx.append((j, k))
-    results = farm.map("checks.c20_sched:run_plan", sched_payloads, timeout=600)
+    results = farm.map("checks.c20_sched:run_plan", sched_payloads, timeout=600, on_result=_stall_guard(rep))
     first_bad = {}
-    for (j, k), (st, val) in zip(sched_idx, results):
+    for (j, k), r_ in zip(sched_idx, results):
+        if r_ is None:
+            continue  # not run: the exploration was cut short by the stall guard
+        st, val = r_
         job = jobs[j]
         an, bn, warm, stratum = job["a"], job["b"], job["warm"], job["stratum"]
         if st != "ok":
@@ -396,6 +399,23 @@ def generated_jobs(farm, rep, seed, n, budget_steps):
     return jobs
 
 
+def _stall_guard(rep, limit=6):
+    """A schedule that stalls costs its whole watchdog time; a tree on which schedules stall
+    systematically (a lock the scheduler cannot see) must end as a HARNESS error within the wall
+    budget, not run into the outer time limit without any verdict."""
+    seen = [0]
+
+    def on_result(i, res):
+        if res and res[0] == "ok" and isinstance(res[1], dict) and str(res[1].get("status", "")).startswith("stall"):
+            seen[0] += 1
+            if seen[0] == limit:
+                rep.harness_error("%d schedules stalled (a thread stopped emitting events without being parked or reported as blocked): exploration cut short, no verdict" % limit)
+                return False
+        return None
+
+    return on_result
+
+
 def dispatch(p):
     from simkit.worker import resolve
 
@@ -429,7 +449,8 @@ def explore_seeded(farm, rep, pairs, tier, seed, stats, n):
         warm = rng.random() < 0.5
         payloads.append({"calls": calls, "warm": warm, "zone": "UTC", "plan": plan, "opcode": False, "raw": i % 3 == 2})  # opcode-level tracing (f_trace_opcodes) segfaults CPython 3.12.1 when tracing is switched off mid-run: line granularity only
         meta.append((chosen, warm))
-    results = farm.map("checks.c20_sched:run_plan", payloads, timeout=300)
+    results = farm.map("checks.c20_sched:run_plan", payloads, timeout=300, on_result=_stall_guard(rep))
+    results = [r_ if r_ is not None else ("skipped", "exploration cut short by the stall guard") for r_ in results]
     # sequential references: all permutations of the calls
     import itertools
 
@@ -447,6 +468,8 @@ def explore_seeded(farm, rep, pairs, tier, seed, stats, n):
         if s_ == "ok":
             seq_cache[ck].append(v_["outs"])
     for pl, (chosen, warm), (st, val) in zip(payloads, meta, results):
+        if st == "skipped":
+            continue
         if st != "ok":
             rep.harness_error("seeded schedule %s: %s %s" % (chosen, st, str(val)[-300:]))
             continue
